@@ -56,6 +56,9 @@ pub struct MuxCase {
     /// the server side starts writing on a stream the moment the stream appears, while the client may still be busy
     /// opening it or later ones (a peer that greets on connect); only with sequential opens
     pub eager_server: bool,
+    /// (direction 0 = client->server / 1 = server->client, byte offset, milliseconds): the transport of that direction
+    /// stops delivering once `offset` bytes have been delivered, stays open, and resumes after the given (virtual) time
+    pub stall: Option<(u8, u64, u64)>,
 }
 
 impl MuxCase {
@@ -71,6 +74,7 @@ impl MuxCase {
             "locator": {"shard": self.locator.0 as u64, "index": self.locator.1 as u64}, "concurrent_opens": self.concurrent_opens,
             "half_close": self.half_close,
             "eager_server": self.eager_server,
+            "stall": self.stall.map(|(d, o, m)| json!([d, o, m])),
         })
     }
     pub fn from_json(v: &Value) -> Option<MuxCase> {
@@ -98,6 +102,7 @@ impl MuxCase {
             concurrent_opens: v.get("concurrent_opens").and_then(|x| x.as_bool()).unwrap_or(false),
             half_close: v.get("half_close").and_then(|x| x.as_array()).map(|a| a.iter().filter_map(|x| x.as_u64()).map(|x| x as u8).collect()).unwrap_or_default(),
             eager_server: v.get("eager_server").and_then(|x| x.as_bool()).unwrap_or(false),
+            stall: v.get("stall").and_then(|x| x.as_array()).and_then(|a| Some((a.first()?.as_u64()? as u8, a.get(1)?.as_u64()?, a.get(2)?.as_u64()?))),
         })
     }
     pub fn shape_key(&self) -> String {
@@ -246,7 +251,7 @@ pub fn gen_case(rng: &mut Rng, max_streams: usize, budget_bytes: usize) -> MuxCa
             }
         })
         .collect();
-    MuxCase { seed: rng.next(), streams, c2s, s2c, scheme, sched_p: if rng.chance(0.5) { 0.3 } else { 0.0 }, inline_first: rng.chance(0.3), locator: (0, 0), concurrent_opens: rng.chance(0.25), half_close, eager_server: rng.chance(0.3) }
+    MuxCase { seed: rng.next(), streams, c2s, s2c, scheme, sched_p: if rng.chance(0.5) { 0.3 } else { 0.0 }, inline_first: rng.chance(0.3), locator: (0, 0), concurrent_opens: rng.chance(0.25), half_close, eager_server: rng.chance(0.3), stall: if rng.chance(0.15) { Some((rng.below(2) as u8, rng.range(0, 60_000), *rng.pick(&[3_000u64, 12_000, 40_000, 130_000]))) } else { None } }
 }
 
 /// Build an owned `Stream` (so that its AsyncRead/AsyncWrite impls are reachable)
@@ -407,7 +412,9 @@ fn cause_of(case: &MuxCase, dir: u64, si: usize) -> String {
     // a chunk above one frame desynchronises the whole session, both directions
     let any_big = case.streams.iter().any(|(u, d)| u.chunks.iter().chain(d.chunks.iter()).any(|c| *c > 65535));
     let plan = if dir == UP { &case.streams[si].0 } else { &case.streams[si].1 };
-    if any_big {
+    if case.stall.is_some() {
+        "transport_stalled_and_recovered".into()
+    } else if any_big {
         "chunk_gt_65535".into()
     } else if case.half_close.get(si).copied().unwrap_or(0) != 0 {
         "other_direction_ended_first".into()
@@ -445,6 +452,21 @@ async fn run_case_async(case: &MuxCase) -> MuxResult {
     let hc = |i: usize| case.half_close.get(i).copied().unwrap_or(0);
     // "this stream's first direction has been ended" signals (a stored permit: order of notify/wait does not matter)
     let ended: Vec<Arc<tokio::sync::Notify>> = (0..n).map(|_| Arc::new(tokio::sync::Notify::new())).collect();
+    // a transport that stalls for a while and recovers
+    let stall_task = case.stall.map(|(dir, off, ms)| {
+        let h = if dir == 0 { pair.c2s.clone() } else { pair.s2c.clone() };
+        h.set_read_fault(off, crate::mempipe::ReadFault::BlackHole);
+        tokio::spawn(async move {
+            for _ in 0..100_000 {
+                if h.delivered() >= off {
+                    break;
+                }
+                tokio::time::sleep(Duration::from_millis(50)).await;
+            }
+            tokio::time::sleep(Duration::from_millis(ms)).await;
+            h.clear_read_fault();
+        })
+    });
     // eager server: a task that takes every stream the moment it appears and starts the server's writer and reader
     // for it at once (the k-th stream to appear is the k-th one opened: opens are sequential in this mode)
     let eager = if case.eager_server && !case.concurrent_opens {
@@ -680,6 +702,9 @@ async fn run_case_async(case: &MuxCase) -> MuxResult {
     if finished && consumed != log.bytes.len() && problems.is_empty() {
         problems.push(("general".into(), "wire_not_whole_frames".into(), format!("client->server recording has {} trailing bytes that are not a complete frame", log.bytes.len() - consumed)));
     }
+    if let Some(t) = stall_task {
+        t.abort();
+    }
     let _ = tokio::time::timeout(Duration::from_secs(5), pair.client.close()).await;
     let _ = tokio::time::timeout(Duration::from_secs(5), pair.server.close()).await;
     MuxResult { problems, bytes_checked, frames_c2s: frames.len() as u64, sched_hits: 0, interleaving: 0, finished }
@@ -690,6 +715,7 @@ pub fn record(rep: &mut Report, prop_class: &str, case: &MuxCase, res: &MuxResul
     rep.add("frames_parsed_c2s", res.frames_c2s);
     rep.add("sched_point_hits", res.sched_hits);
     rep.add("streams_with_one_direction_ended_first", case.half_close.iter().filter(|m| **m != 0).count() as u64);
+    rep.add("cases_with_a_transport_that_stalls_and_recovers", case.stall.is_some() as u64);
     rep.add("cases_with_a_server_that_writes_as_soon_as_a_stream_appears", (case.eager_server && !case.concurrent_opens) as u64);
     rep.seen("interleavings", format!("{:016x}", res.interleaving));
     rep.seen("fragmentation_classes", format!("{} / {}", case.c2s.describe(), case.s2c.describe()));
